@@ -207,6 +207,16 @@ def r1_2(ctx, R):
             ctx.ob("R1.2", b, "notify-not-before-enq@%s" % _site_label(b, bb),
                    not any(b.dominates(x, bb) for x in nots), b.loc(bb))
     ctx.floor("R1.2", "enqueue-sites-on-wake-path", n, 1)
+    # the owner-side marking primitive links the same intrusive node: linking a node that is already queued cuts the
+    # entries behind it out of the queue (their wake-ups are lost) or ties the node to itself
+    wp = {b.path for b in wake_path}
+    for b in ctx.facts.fn_bodies():
+        if b.path in wp:
+            continue
+        for bb, t, fn in direct_sites(b, RE_ENQUEUE):
+            f_, w_ = enq_guarded(ctx, R, b, bb)
+            ctx.ob("R1.2", b, "enq-guarded-by-flag@%s" % _site_label(b, bb), f_ and w_, b.loc(bb),
+                   "owner-side enqueue: flag-false edge before=%s, true written before=%s" % (f_, w_))
 
 
 def d_loc(body):
@@ -806,6 +816,37 @@ def r1_7(ctx, R):
                         break
                 if not progressed:
                     bad[e[1]].append(path)
+        # the exhausted group is put back only when nothing else is left or when it was the LAST group (cursor == len after
+        # the removal, compared as they are): re-appending any other group re-orders the turn and the pass runs out of
+        # iterations before every group was polled
+        fl_ = ctx.flow(b)
+        labs_c = {}
+        n_back = 0
+        bad_back = None
+        for path, ev in eps:
+            for i, e in enumerate(ev):
+                if e[0] != "BACK":
+                    continue
+                n_back += 1
+                rem_i = max([f[2] for f in ev[:i] if f[0] == "REM"] or [0])
+                okb = False
+                for j in range(rem_i, e[2]):
+                    if path[j] not in labs_c:
+                        labs_c[path[j]] = fl_.edge_labels(path[j])
+                    for lab in labs_c[path[j]].get(path[j + 1], []):
+                        if lab[0] != "bool" or lab[2] is not True:
+                            continue
+                        x = lab[1]
+                        if x[0] == "call" and re.search(r"Vec::<.*>::is_empty$", x[1] or ""):
+                            okb = True
+                        if x[0] == "binop" and x[1] == "Eq":
+                            for l_, r_ in ((x[2], x[3]), (x[3], x[2])):
+                                if l_[0] == "proj" and l_[2] and l_[2][-1] == cur_field and r_[0] == "call" and re.search(r"Vec::<.*>::len$", r_[1] or ""):
+                                    okb = True
+                if not okb:
+                    bad_back = path
+        ctx.ob("R1.7", b, "exhausted-group-put-back-only-if-last-or-only", bad_back is None and n_back > 0, d_loc(b),
+               "%d put-back events on feasible paths" % n_back, path=bad_back)
         for outcome in ("Pending", "None"):
             ctx.ob("R1.7", b, "iteration-after-%s-moves-on" % outcome, not bad[outcome] and seen[outcome] > 0, d_loc(b),
                    "after an inner %s the cursor is advanced/reset%s before the next inner poll; %d events, %d without progress" % (
